@@ -660,7 +660,7 @@ func (d *decoder) parseDataFields(dm *defmsg, knownMsg bool, msgv reflect.Value)
 			if pfield.t.Kind() != types.NativeFit && !pfield.t.Array() {
 				padding = pfield.t.BaseType().Size() - dsize
 			}
-		} else if d.opts.unknownFields {
+		} else if knownMsg && d.opts.unknownFields {
 			d.unknownFields[unknownField{dm.globalMsgNum, dfield.num}]++
 		}
 
